@@ -318,10 +318,47 @@ class Interp:
         self.modconst[key] = val
         return val
 
+    def module_state_names(self):
+        """module-level names that some function rebinds (`global x; x = ...`) or changes in place (x[k] = v, x.append(v), ...)"""
+        if getattr(self, '_module_state', None) is None:
+            out = set()
+            for rel, tree in self.repo.trees.items():
+                top = {t.id for st in tree.body if isinstance(st, (ast.Assign, ast.AnnAssign)) for t in (st.targets if isinstance(st, ast.Assign) else [st.target]) if isinstance(t, ast.Name)}
+                for fn in [n for n in ast.walk(tree) if isinstance(n, (ast.FunctionDef, ast.AsyncFunctionDef))]:
+                    local = {a.arg for a in fn.args.posonlyargs + fn.args.args + fn.args.kwonlyargs}
+                    glob = set()
+                    for n in ast.walk(fn):
+                        if isinstance(n, ast.Global):
+                            glob |= set(n.names)
+                        elif isinstance(n, ast.Name) and isinstance(n.ctx, ast.Store):
+                            local.add(n.id)
+                    local -= glob
+                    out |= glob & top
+                    for n in ast.walk(fn):
+                        base = None
+                        if isinstance(n, (ast.Assign, ast.AugAssign)):
+                            for t in (n.targets if isinstance(n, ast.Assign) else [n.target]):
+                                if isinstance(t, ast.Subscript):
+                                    v = t.value
+                                    while isinstance(v, ast.Subscript):
+                                        v = v.value
+                                    if isinstance(v, ast.Name):
+                                        base = v.id
+                        elif isinstance(n, ast.Call) and isinstance(n.func, ast.Attribute) and isinstance(n.func.value, ast.Name) and n.func.attr in (
+                                'append', 'extend', 'update', 'insert', 'pop', 'remove', 'sort', 'setdefault', 'add', 'clear', 'discard', 'popitem', 'reverse'):
+                            base = n.func.value.id
+                        if base is not None and base in top and base not in local:
+                            out.add(base)
+            self._module_state = out
+        return self._module_state
+
     def module_constant(self, name, fr):
         """Top-level `NAME = <literal built from constants / enum members>` of a repository module (own module first)."""
         if name in self.modconst:
             return self.modconst[name]
+        if name in self.module_state_names():
+            self.modconst[name] = None         # rebound under `global` or filled in place by some function: state, not a constant
+            return None
         found = []
         order = sorted(self.repo.trees, key=lambda r: (r != getattr(fr.func, 'relpath', None), r))
         for rel in order:
